@@ -352,7 +352,7 @@ std::vector<std::string> recognisedKeys(const Parser& parser, std::map<std::stri
     for (char x : {'W', 'G', 'F'})
         for (const auto& s : kSuffix) {
             std::string k = std::string(1, x) + s;
-            if (parser.isRecognizedKeyword(k)) keys.push_back(k); else ++stats["key.unknown_to_parser"];
+            if (parser.isRecognizedKeyword(k)) keys.push_back(k); else { ++stats["key.unknown_to_parser"]; ++stats["unknown_to_parser." + k]; }
         }
     return keys;
 }
@@ -398,14 +398,15 @@ int runCorr(uint64_t seed, bool thorough, const std::string& outdir) {
             const std::string state = dumpState(R, st, simStep, wd);
             writer.eval(st, ev.reportStep, ev.secs, wd, {}, {}, {}, {}, {});
             sink.count(dt == 0.0 ? "eval.dt_zero" : "eval.dt_pos");
-            if (ci == 0 && ev.reportStep <= 1) sink.emit("sumfuns.tree " + state.substr(0, state.find(" W ")), "ok");
+            // parent pointers and children lists of the real Schedule describe one tree
+            sink.emit("sumfuns.tree " + state.substr(0, state.find(" W ")), "ok");
             for (const auto& n : nodes) {
                 std::ostringstream ks;
                 int nk = 0;
                 for (const auto& k : keys) {
                     if (k[0] != n.cat) continue;
                     bool has; const double v = getVar(st, n.cat, n.name, k, has);
-                    if (!has) { sink.count("key.not_evaluated"); continue; }
+                    if (!has) { sink.count("key.not_evaluated"); if (ci == 0) sink.count("not_evaluated." + k); continue; }
                     ks << ' ' << k << ' ' << vh::hexF64(prev[n.name + "/" + k]) << ' ' << vh::hexF64(v);
                     ++nk;
                     if (v != 0.0) sink.count("value.nonzero"); else sink.count("value.zero");
@@ -469,6 +470,7 @@ int runProp(uint64_t seed, bool thorough, const std::string& outdir) {
     std::map<std::string, long> stats;
     const auto keys = recognisedKeys(parser, stats);
     const int ncases = thorough ? 300 : 40;
+    long noted_checked = 0, noted_dev = 0;
     auto chk = [&](bool ok, const std::string& key, const std::string& detail) {
         if (ok) log.ok(); else { log.ok(); log.fail(key, detail); }
     };
@@ -579,6 +581,20 @@ int runProp(uint64_t seed, bool thorough, const std::string& outdir) {
                     chk(close(W(w.name, tr.t), expect), std::string("cumulative.") + tr.t,
                         a + " got " + std::to_string(W(w.name, tr.t)) + " expected " + std::to_string(expect) + " efac " + std::to_string(full));
                 }
+                // neighbours outside the property's O,W,G,L,V families: polymer and solvent totals obey the
+                // same law; brine and energy totals do not (SummaryConfig does not type them Total, finding
+                // F-C09-1) — counted, not failed.
+                for (const TR& tr : { TR{"WCPT", "WCPR"}, TR{"WNPT", "WNPR"}, TR{"WCIT", "WCIR"}, TR{"WNIT", "WNIR"} }) {
+                    if (!st.has_well_var(w.name, tr.t)) continue;
+                    const double expect = before[w.name + "/" + tr.t] + W(w.name, tr.r) * full * dt;
+                    chk(close(W(w.name, tr.t), expect), std::string("cumulative.") + tr.t, a);
+                }
+                for (const TR& tr : { TR{"WSPT", "WSPR"}, TR{"WEPT", "WEPR"}, TR{"WSIT", "WSIR"}, TR{"WEIT", "WEIR"} }) {
+                    if (!st.has_well_var(w.name, tr.t)) continue;
+                    const double expect = before[w.name + "/" + tr.t] + W(w.name, tr.r) * full * dt;
+                    ++noted_checked;
+                    if (!close(W(w.name, tr.t), expect)) ++noted_dev;
+                }
                 // history vectors echo the schedule's observed rates (deck numbers)
                 if (fl) {
                     const bool isProd = w.producer;
@@ -651,7 +667,9 @@ int runProp(uint64_t seed, bool thorough, const std::string& outdir) {
         }
     }
     std::ofstream ps(outdir + "/prop_stats.json");
-    ps << "{\n  \"checked\": " << log.checked << ",\n  \"failed\": " << log.failed << ",\n  \"cases\": " << ncases << "\n}\n";
+    ps << "{\n  \"checked\": " << log.checked << ",\n  \"failed\": " << log.failed << ",\n  \"cases\": " << ncases
+       << ",\n  \"outside_quantifier_brine_energy_totals_checked\": " << noted_checked
+       << ",\n  \"outside_quantifier_brine_energy_totals_without_efac\": " << noted_dev << "\n}\n";
     std::error_code ec; std::filesystem::remove(outdir + "/PCASE.SMSPEC", ec);
     return 0;
 }
